@@ -472,6 +472,34 @@ class PipeOps(FullOps):
             return replace(base, head=None)
         return super().subscript(base, idx, node, env)
 
+    def inst_minmax(self, fn, args, node):
+        """Instance runs: min / max of a concrete size c and the total number of elements X of a collection of tensors. For `backward` the
+        elements of `tensors` ARE the rows (X = m). Any other total is a size the row count says nothing about: the run forks over the
+        outcomes (X >= c, or X = 1, ..., c - 1 for min; X <= c, X = c + 1, X = c + 5 for max), one path each."""
+        cs = [self.const_int(a) for a in args]
+        if (cs[0] is None) == (cs[1] is None):
+            return None
+        c = cs[0] if cs[0] is not None else cs[1]
+        x = tv_of(args[1] if cs[0] is not None else args[0])
+        if x is None or x.note != "numel-total":
+            return None
+        pick = min if fn == "min" else max
+        if self.inst.get("entry") == "backward" and x.origin == frozenset(["tensors"]):
+            return Const(pick(c, self.inst["m"]))
+        I = self.interp
+        if I.join_depth != 0 or c < 1:
+            return None
+        outcomes = [c] + (list(range(1, c)) if fn == "min" else [c + 1, c + 5])
+        ch = I.oracle.decide(f"{I.where(node)[0]}: {norm_text(node)}", len(outcomes))
+        what = "+".join(sorted(x.origin))
+        I.trace.decisions.append(f"[numel({what}) {'>=' if fn == 'min' else '<='} {c}]" if ch == 0 else f"[numel({what}) = {outcomes[ch]}]")
+        return Const(outcomes[ch])
+
+    def unpack_list(self, v, n, node):
+        if isinstance(v, ListV) and v.order is not None and v.order[0] and str(v.order[0][0]).startswith("shape:"):
+            return [self.subscript(v, ("index", Const(i)), node, None) for i in range(n)]  # `rows, cols = t.shape` is t.shape[0], t.shape[1]
+        return None
+
     def psum_note(self, v):
         """Names a bound that is, in closed form, a prefix sum of an accumulated list: `cur` or `cur + width` = `next`."""
         if not (isinstance(v, TV) and v.poly is not None):
@@ -574,10 +602,26 @@ class PipeOps(FullOps):
             if desc == ["-1"]:
                 keep = ()
             return t.but(layout=keep, axes=axes if t.axes[0] == "R" and desc and desc[0] == "rows" else ((Q,) if desc == ["-1"] else t.axes))
+        if name == "as_strided" and len(args) >= 2:
+            # as_strided(shape, strides): a window on the storage. With strides taken from another tensor (`key.stride()`) it is a row-major
+            # un-flattening only if that tensor is contiguous; literal contiguous strides are not recognised here (reported as undecided by `unk`)
+            st_ = args[1]
+            from_stride_call = isinstance(st_, ListV) and st_.items is None and (st_.order or ((),))[0] and str(st_.order[0][0]).startswith("stride:")
+            if from_stride_call:
+                self.pev("reshape", node, how="as_strided", shape=[self.shape_arg(args[0])], strides=str(st_.order[0][0])[7:] + ".stride()", layout=[repr(l) for l in t.layout], origin=sorted(t.origin))
+                return t.but(layout=())
+            self.pev("opaque_method", node, name=name)
+            return opaque(t.origin, dtype=t.dtype)
+        if name == "stride" and not args:
+            return ListV(items=None, elem=TV(kind="pyint"), kind="tuple", order=((f"stride:{'+'.join(sorted(t.origin))}",), "same"))
         if name == "view_as" and len(args) == 1 and is_opaque(tv_of(args[0]) or TV()):
             return self.tensor_method(t, "view", [self.value_attr(tv_of(args[0]), "shape", node, env)], {}, node, env)
         if name == "diag_embed" and not args and not kwargs and len(t.axes) == 1:
             return self.tensor_method(t, "diag", [], {}, node, env)
+        if name in ("flatten", "ravel", "reshape", "contiguous") and t.note == "grad-field":
+            # flatten()/reshape()/contiguous() hand back the tensor's own storage only when it is contiguous; otherwise a copy
+            r_ = self.tensor_method(t.but(note=""), name, args, kwargs, node, env)
+            return r_.but(note="grad-field-maybe-copy") if isinstance(r_, TV) else r_
         if name in ("flatten", "ravel") and not args and not kwargs:
             return self.tensor_method(t, "reshape", [ListV(items=(Const(-1),))], {}, node, env)
         if name == "narrow":
@@ -622,16 +666,26 @@ class PipeOps(FullOps):
         if name in ("t", "transpose", "permute", "movedim", "flip", "roll", "swapaxes", "fliplr", "flipud"):
             self.pev("axis_reorder", node, what=name)
             return t.but(layout=())
-        if name in ("add_", "sub_") and t.note == "grad-field":
+        if name in ("add_", "sub_") and t.note in ("grad-field", "grad-field-maybe-copy"):
             vt = tv_of(args[0]) if args else None
             self.pev("inplace", node, alias=False, target=name, target_note=t.note, target_origin=sorted(t.origin))
             self.pev("grad_write", node, aug=True, target=sorted(t.origin), target_note="key", value=repr(args[0]) if args else "", fresh=True,
-                     value_origin=sorted(vt.origin) if vt is not None else None, value_is_none=False)
+                     value_origin=sorted(vt.origin) if vt is not None else None, value_is_none=False, maybe_copy=t.note == "grad-field-maybe-copy")
             return t
         if name in ("split", "tensor_split", "split_with_sizes"):
-            sizes = args[0] if args else kwargs.get("split_size_or_sections", kwargs.get("split_sizes"))
+            sizes = args[0] if args else kwargs.get("split_size_or_sections", kwargs.get("split_sizes", kwargs.get("split_size")))
             dim = kwargs.get("dim", args[1] if len(args) > 1 else None)
             d = self.const_int(dim) if dim is not None else 0
+            if name == "split" and d == 0 and isinstance(sizes, (TV, Const)) and t.axes and t.axes[0] in ("R", "K"):
+                # split(k) along the rows: consecutive blocks of k rows, the last one holding the remainder (library semantics)
+                kc = self.const_int(sizes)
+                rows = self.rows_of(t)
+                if self.inst is not None and kc is not None and kc > 0 and rows is not None:
+                    rr = self.span_rows(rows)
+                    return ListV(items=tuple(t.but(alias=True, rowspan=self.span_norm(rr[i:i + kc])) for i in range(0, len(rr), kc)), kind="tuple")
+                st_ = tv_of(sizes)
+                self.pev("row_split", node, size=repr(sizes), size_poly=st_.poly if st_ is not None else None, tensor_origin=sorted(t.origin))
+                return ListV(items=None, elem=t.but(alias=True, rowspan="?" if self.inst is not None else None), kind="tuple", order=(("row-blocks",), "same"))
             lst = self.to_list(sizes, "list", node) if not isinstance(sizes, TV) else None
             if name == "tensor_split":
                 # tensor_split takes BOUNDARIES, not sizes: the running totals of the widths without the last one cut the axis into
@@ -727,6 +781,20 @@ class PipeOps(FullOps):
                 flat.append(a)
         if lib == "torch.autograd." and fn in ("grad", "backward"):
             return self.autograd(fn, args, kwargs, node, env)
+        if lib == "torch." and fn in ("_foreach_add_", "_foreach_sub_") and len(args) >= 2 and isinstance(args[0], ListV):
+            # torch._foreach_add_(xs, ys): xs[i] += ys[i] for every i, in place
+            xs, ys = args[0], args[1]
+            pairs = list(zip(xs.items, ys.items)) if xs.items is not None and isinstance(ys, ListV) and ys.items is not None and len(xs.items) == len(ys.items) else \
+                [(xs.elem if xs.items is None else join_all(xs.items), (ys.elem if ys.items is None else join_all(ys.items)) if isinstance(ys, ListV) else ys)]
+            for x_, y_ in pairs:
+                tx, ty = tv_of(x_), tv_of(y_)
+                if tx is None:
+                    return self.unk(f"{fn} on non-tensors", node)
+                self.pev("inplace", node, alias=tx.alias, target=fn, target_note=tx.note, target_origin=sorted(tx.origin))
+                if tx.note in ("grad-field", "grad-field-maybe-copy"):
+                    self.pev("grad_write", node, aug=True, target=sorted(tx.origin), target_note="key", value=repr(y_), value_dtype=ty.dtype if ty is not None else None, target_dtype=tx.dtype,
+                             fresh=True, value_origin=sorted(ty.origin) if ty is not None else None, value_is_none=False, maybe_copy=tx.note == "grad-field-maybe-copy")
+            return NONE
         if lib == "torch." and fn == "is_tensor" and len(args) == 1:
             # torch.is_tensor(x) is isinstance(x, torch.Tensor)
             return self.call_builtin("isinstance", [args[0], ExtV("torch.Tensor")], {}, node, env)
@@ -899,6 +967,10 @@ class PipeOps(FullOps):
 
     # ------------------------------------------------------------------ misc
     def call_builtin(self, fn, args, kwargs, node, env):
+        if fn in ("min", "max") and self.inst is not None and len(args) == 2:
+            r_ = self.inst_minmax(fn, args, node)
+            if r_ is not None:
+                return r_
         if fn == "hasattr" and args and is_opaque(args[0]):
             return TRUE if isinstance(args[1], Const) and args[1].v == "grad" else TV(kind="pybool", dtype="Bool")
         if fn == "isinstance" and args and is_opaque(args[0]):
